@@ -40,6 +40,7 @@ def run(ctx):
                                 cosmo_params=r.choice([{}, {"Om0": 0.25}, {"Om0": 0.4, "H0": 60.0}]), transfer_model=r.choice(["EH", "BBKS", "EH_NoBAO"]),
                                 lnk_min=r.choice([-12.0, -8.0, -5.0, -4.0]), lnk_max=r.choice([8.0, 6.0]), dlnk=r.choice([0.05, 0.1])))
         first_outputs = {}
+        hyp_n = [0, 0]
         for ci, cfg in enumerate(configs):
             T = Transfer(**cfg)
             k, lin = T.k.copy(), T.delta_k.copy()
@@ -68,6 +69,16 @@ def run(ctx):
                        "flag:takahashi": 1.0 if tak else 0.0, "cosmo.Om0": float(T.cosmo.Om0), "cosmo.Onu0": float(T.cosmo.Onu0)}
                 calls = [("cosmo.Om", float(cfg["z"]), float(T.cosmo.Om(cfg["z"]))), ("cosmo.Ode", float(cfg["z"]), float(T.cosmo.Ode(cfg["z"]))),
                          ("cosmo.w", float(cfg["z"]), float(T.cosmo.w(cfg["z"])))]
+                # hypotheses of the non-negativity theorems, on the sampled cosmologies (non-vacuity): Om(z) > 0, neutrino factor >= 0,
+                # interpolation weight Ode(z)/(1-Om(z)) in [0, 1] where the Smith03 branch uses it (|1 - Om(z)| > 0.01)
+                omz_, odez_ = calls[0][2], calls[1][2]
+                fnu_ = env["cosmo.Onu0"] / env["cosmo.Om0"]
+                hyp_ok = omz_ > 0 and 1.0 + fnu_ * (0.977 - 18.015 * (env["cosmo.Om0"] - 0.3)) >= 0
+                if not tak and abs(1 - omz_) > 0.01:
+                    w_ = odez_ / (1 - omz_)
+                    hyp_ok = hyp_ok and (0 <= w_ <= 1 + 1e-12)
+                hyp_n[0] += 1
+                hyp_n[1] += int(bool(hyp_ok))
                 reqs.append(("Halofit/halofit_pnl", int(m.sum()), env, calls))
                 exp.append((nl[m], {"config": {kk: str(vv) for kk, vv in cfg.items()}, "takahashi": tak, "knl": knl}))
                 # sigma_8 argument is ignored
@@ -154,7 +165,10 @@ def run(ctx):
         "rule": "random (z, sigma_8, n, cosmology, transfer model, k range incl. ranges entirely above the low-k cut, resolution) with the non-linear scale inside the range, both switch values; each: real halofit vs generated closed form, identities, quadrature of the defining condition, repetition after the whole sequence",
         "gen_disagreements": nbad, "samples": [e[1] for e in exp[:2]],
         "search": "oracles on the real halofit / Transfer",
+        "nonneg_theorem_hypotheses": {"cases": hyp_n[0], "met": hyp_n[1]},
     }
+    if hyp_n[0] and not hyp_n[1]:
+        out["broken"].append({"kind": "hypothesis", "what": "the hypotheses of halofit_takahashi_nonneg / halofit_smith_nonneg are met by none of the sampled cosmologies (vacuous theorems)"})
     return out
 
 
